@@ -62,6 +62,13 @@ CONTENT_VARIANTS = {
         ('text-list', {'text': ['a']}, REJECT),
         ('text-empty', {'text': ''}, REJECT),
         ('le-mac', {'line_endings': 'mac'}, REJECT),
+        # values that upset the code building the error message
+        ('le-percent', {'line_endings': '%s %d'}, REJECT),
+        ('le-braces', {'line_endings': '{0} {x}'}, REJECT),
+        ('le-long', {'line_endings': 'u' * 5000}, REJECT),
+        ('mimetype-percent', {'mimetype': '100%'}, REJECT),
+        ('mimetype-newline', {'mimetype': 'text/plain\n'}, REJECT),
+        ('mimetype-tuple', {'mimetype': {'$tuple': ['text/plain']}}, MAY),
         ('le-int', {'line_endings': 5}, REJECT),
         ('le-upper', {'line_endings': 'DOS'}, REJECT),
         ('le-title', {'line_endings': 'Unix'}, REJECT),
@@ -112,6 +119,8 @@ CONTENT_VARIANTS = {
         ('meta-str', {'metadata': '{}'}, REJECT),
         ('meta-empty', {'metadata': {}}, REJECT),
         ('format-yaml', {'meta_format': 'yaml'}, REJECT),
+        ('format-percent', {'meta_format': '%s'}, REJECT),
+        ('format-surrogate', {'meta_format': '\udc80'}, REJECT),
         ('format-upper', {'meta_format': 'JSON'}, REJECT),
         ('format-substr', {'meta_format': 'js'}, REJECT),
         ('format-empty', {'meta_format': ''}, REJECT),
@@ -131,6 +140,9 @@ CONTENT_VARIANTS = {
         ('diff-empty', {'content_hex': ''}, REJECT),
         ('diff-bytearray', {'content': ['a']}, REJECT),
         ('type-x', {'diff_type': 'x'}, REJECT),
+        ('type-percent', {'diff_type': '%(type)s'}, REJECT),
+        ('type-braces', {'diff_type': '{}'}, REJECT),
+        ('type-tuple', {'diff_type': {'$tuple': ['text', 'binary']}}, MAY),
         ('type-case', {'diff_type': 'Binary'}, REJECT),
         ('le-case-diff', {'line_endings': 'Dos'}, REJECT),
         ('type-substr', {'diff_type': 'tex'}, REJECT),
